@@ -385,6 +385,7 @@ def oracle_raw(case, ob):
     if case.get("corr_only"):
         return None
     toks = tokens_of(case["prog"])
+    has_fin = '"fin"' in repr(case["prog"]).replace("'", '"')   # a finally block may replace what was thrown
     issued, received = [], []
     pending = None          # (d) an oob of the driving monitor waiting for its answer
     stop = False
@@ -393,7 +394,10 @@ def oracle_raw(case, ob):
         steps = rec[:-1]
         for si, (log, out, states, pr) in enumerate(steps):
             where = f"call {ci} ({cl[0]}) step {si}"
-            if has_marker([log, out]):
+            op_in = (cl if si == 0 else (cc["ops"][si - 1][0] if si - 1 < len(cc["ops"]) else ["close"]))
+            closing = op_in in (["close"], ["aclose"], ["throw", ["GeneratorExit"]],
+                                ["athrow", ["GeneratorExit"]])
+            if has_marker([log, out]) or (closing and any(e[0] == 4 for e in log)):
                 stop = True     # an oob()/yield while being closed: by design an error; carve-out
                 break
             # the answer of the previous oob goes to that oob
@@ -406,7 +410,7 @@ def oracle_raw(case, ob):
                         if not log or log[0] != [1, C.enc(inp[1])]:
                             return (f"{where}: oob({pending}) was answered with {inp[1]} but the body "
                                     f"logged {log[:1]}")
-                    else:
+                    elif not has_fin:
                         exp = expected_thrown(inp[1])
                         if log and log[0][0] == 1:
                             return f"{where}: {inp[1]} thrown at oob({pending}) but oob() returned {log[0]}"
@@ -1008,14 +1012,20 @@ def describe_raw(case):
 
 
 def signature(stream, case, msg):
-    return f"C07-{stream}-{msg.split(':')[0][:40] if stream == 'x' else ''}"[:60] or None
+    """one report per stream and kind of failure"""
+    for frag, kind in (("re-entrant", "reentrant"), ("monitor states", "state"),
+                       ("reference monitor", "reference"), ("without the re-entrant", "disturbed"),
+                       ("oob", "oob-sequence"), ("OOBData", "oob-sequence")):
+        if frag in msg:
+            return f"C07-{stream}-{kind}"
+    return f"C07-{stream}-other"
 
 
 PROP = Prop(
     pid="C07",
     props_v="theories/Props/C07.v",
-    theory_files=["theories/Coro/Monitor.v", "theories/Coro/MonitorProofs.v",
-                  "theories/Coro/MonitorCorr.v"],
+    theory_files=["theories/Coro/Monitor.v", "theories/Coro/MonitorSpec.v",
+                  "theories/Coro/MonitorProofs.v", "theories/Coro/MonitorCorr.v"],
     streams=[
         Stream(name="raw", imports=IMPORTS, run="raw_run", input_type="mprog * nat * list rawcall",
                gen=gen_raw, impl=impl_raw, to_coq=coq_raw, oracle=oracle_raw,
@@ -1035,7 +1045,7 @@ PROP = Prop(
          "1..3 script coroutines over a random body, monitors 0..depth, driven raw / as a Task on a "
          "stepped real loop / by await_sync.  Non-trivial = at least one oob() was issued (raw: and at "
          "least two calls were made; nest: and some call result was logged)",
-    signature=lambda stream, case, msg: None,
+    signature=lambda stream, case, msg: signature(stream, case, msg),
     assumptions=["CPython 3.12 coroutine protocol as modelled by Coro/Tree.v + Native.v (validated by C02)",
                  "the body does not raise OOBData itself; an oob() issued while its frame is being "
                  "closed is outside the property (designed RuntimeError)",
